@@ -54,6 +54,7 @@ type cliPath struct {
 	NotExist map[int]bool // ... of which errors.Is(err, os.ErrNotExist) was decided true
 	Choices  string
 	Bound    map[string]bool
+	Indexed  map[token.Pos]bool // index and slice expressions evaluated in range on this path
 }
 
 const (
@@ -125,6 +126,7 @@ func cliEnvs() []cliEnv {
 func cliRun(prog *load.Program, env cliEnv, choices *interp.Choices) (*cliPath, error) {
 	m := interp.New(prog)
 	m.Choices = choices
+	m.Indexed = map[token.Pos]bool{}
 	p := &cliPath{Env: env, NonNil: map[int]bool{}, NotExist: map[int]bool{}, Bound: map[string]bool{}}
 	nerr := 0
 	errVal := func(what string) (interp.Value, int) {
@@ -388,6 +390,7 @@ func cliRun(prog *load.Program, env cliEnv, choices *interp.Choices) (*cliPath, 
 		}
 	}
 	p.Choices = choices.Describe()
+	p.Indexed = m.Indexed
 	return p, nil
 }
 
@@ -763,4 +766,40 @@ func cliFileReplaced(c *Ctx) {
 		run.Check("G-FILE/replaced", p.Env.String(), pos, ok, "the -out file is not written by exactly one os.WriteFile(<-out path>, <the whole generated buffer>): "+describe(p)+" — os.WriteFile creates or truncates; any other way of writing is outside the modelled vocabulary")
 	}
 	run.Check("G-FILE/replaced", "reached", pos, n > 0, "no explored run writes the -out file")
+}
+
+// cliIndexOracle serves gen.CLIIndexed: the index and slice expressions of package main that the
+// interpretation of main evaluated in range, on every path that reached them, for every number of
+// positional arguments up to cliMaxArgs (an out-of-range index stops the interpretation with an error).
+func cliIndexOracle(c *Ctx) func() (map[token.Pos]bool, int, bool) {
+	var sites map[token.Pos]bool
+	done, ok := false, false
+	return func() (map[token.Pos]bool, int, bool) {
+		if done {
+			return sites, cliMaxArgs, ok
+		}
+		done = true
+		if c.Tier == "thorough" {
+			cliMaxArgs = 5
+		}
+		ps := c.cliPaths
+		if !c.cliDone {
+			var err error
+			if ps, err = cliExplore(c.Prog); err != nil {
+				return nil, cliMaxArgs, false
+			}
+			c.cliDone, c.cliPaths = true, ps
+		}
+		if ps == nil {
+			return nil, cliMaxArgs, false
+		}
+		sites = map[token.Pos]bool{}
+		for _, p := range ps {
+			for pos := range p.Indexed {
+				sites[pos] = true
+			}
+		}
+		ok = true
+		return sites, cliMaxArgs, ok
+	}
 }
